@@ -29,6 +29,11 @@ def main():
     for k in ("OMP_NUM_THREADS", "OPENBLAS_NUM_THREADS", "MKL_NUM_THREADS"):
         os.environ[k] = "1"
     wt, pid, name = sys.argv[1:4]
+    # qutip keeps compiled-coefficient state under ~/.qutip and
+    # test_coefficient.py wipes it at import: never share HOME between runs
+    home = "/tmp/seed_home_%s" % name
+    os.makedirs(home, exist_ok=True)
+    os.environ["HOME"] = home
     tests = sys.argv[4:]
     out = os.path.join(wt, "OUT")
     meta = json.load(open(os.path.join(out, "meta.json")))
